@@ -10,5 +10,6 @@ INVARIANT Inv_Interval
 INVARIANT Inv_Rpcs
 INVARIANT Inv_Svcs
 INVARIANT Inv_Internal
+INVARIANT Inv_Files
 POSTCONDITION Accepted
 CHECK_DEADLOCK FALSE
